@@ -2,6 +2,7 @@ import FlexModel.Proto
 import FlexModel.Geo.LocTDriver
 import FlexModel.Geo.Router
 import FlexModel.Geo.NetFlood
+import FlexModel.Geo.RouterSec
 namespace FlexModel.Geo
 open FlexModel.Proto
 
@@ -25,9 +26,30 @@ def outStr (s : RSt) (acts : List Act) : String :=
   (match acts with | [] => "-" | l => " | ".intercalate (l.map Act.str)) ++ " # " ++
     " ".intercalate (s.buf.map fun x => s!"{x.1.1}:{x.1.2}")
 
+def WFrame.str : WFrame → String
+  | .plain q => "send " ++ q.str
+  | .secured rhl m => s!"sends {rhl} {m}"
+
+/-- wire-level output: actions with every transmission shown as the PDU `_forward_pdu` builds under `ctx`, then the CBF
+buffer with the kind of the finished PDU stored under each key (`P` re-assembled, `S<m>` secured message `m`) -/
+def wireOutStr (wbuf : List (Key × WFrame)) (acts : List Act) (ctx : Option Nat) : String :=
+  (match acts with
+    | [] => "-"
+    | l => " | ".intercalate (l.map fun a => match a with | .send q => (forwardPdu ctx q).str | a => a.str)) ++ " # " ++
+    " ".intercalate (wbuf.map fun x => s!"{x.1.1}:{x.1.2}:" ++ (match x.2 with | .plain _ => "P" | .secured _ m => s!"S{m}"))
+
 structure RStation where
   c : RCfg := { loct := { self := 0, lifetimeMs := 20000, dplLen := 8 } }
   s : RSt := {}
+  /-- wire level (`wcfg` / `wrx` / `wfire`): verify service configured, itsGnSecurity ENABLED, receive contexts, stored PDUs -/
+  hv : Bool := false
+  en : Bool := false
+  ctx : Nat → Option Nat := fun _ => none
+  wbuf : List (Key × WFrame) := []
+
+def RStation.w (x : RStation) : WCfg := { c := x.c, hasVerify := x.hv, secEnabled := x.en }
+def RStation.ws (x : RStation) : WSt := { r := x.s, ctx := x.ctx, wbuf := x.wbuf }
+def RStation.put (x : RStation) (s : WSt) : RStation := { x with s := s.r, ctx := s.ctx, wbuf := s.wbuf }
 
 /-- several stations (topology runs): `sel i` switches the station the following lines talk to -/
 structure RDrvSt where
@@ -158,6 +180,26 @@ def routerStep (d : RDrvSt) (tk : List String) : RDrvSt × String :=
       let r := recvR x.c x.s p env now
       (d.set { x with s := r.1 }, outStr r.1 r.2)
     | _, _, _, _ => (d, "bad-op")
+  | ["wcfg", a, l, n, cbf, hv, en] =>
+    match nat? a, nat? l, nat? n, [cbf, hv, en].mapM bool? with
+    | some a, some l, some n, some [cbf, hv, en] =>
+      (d.set { c := { loct := { self := a, lifetimeMs := l, dplLen := n }, cbf := cbf }, s := {}, hv := hv, en := en }, "ok")
+    | _, _, _, _ => (d, "bad-op")
+  | "wrx" :: thr :: sec :: m :: vok :: cb :: rest =>
+    match nat? thr, [sec, vok, cb].mapM bool?, nat? m, pkt? (rest.take 14), env? ((rest.drop 14).take 6), (rest.drop 20).mapM nat? with
+    | some thr, some [sec, vok, cb], some m, some p, some env, some [now] =>
+      let x := d.get
+      let r := recvW x.w x.ws { thr := thr, sec := sec, m := m, vok := vok, p := p, cbRaises := cb } env now
+      (d.set (x.put r.1), wireOutStr r.1.wbuf r.2.1 r.2.2)
+    | _, _, _, _, _, _ => (d, "bad-op")
+  | ["wfire", so, sn] =>
+    match nat? so, nat? sn with
+    | some so, some sn =>
+      let x := d.get
+      let r := fireW x.ws (so, sn)
+      (d.set (x.put r.1), (match r.2 with | [] => "-" | l => " | ".intercalate (l.map WFrame.str)) ++ " # " ++
+        " ".intercalate (r.1.wbuf.map fun y => s!"{y.1.1}:{y.1.2}:" ++ (match y.2 with | .plain _ => "P" | .secured _ m => s!"S{m}")))
+    | _, _ => (d, "bad-op")
   | ["fire", so, sn] =>
     match nat? so, nat? sn with
     | some so, some sn =>
